@@ -192,6 +192,18 @@ def build_algorithm(case, order):
                               noise_var=case["noise_var"], L=case.get("L", 5))
             stubs.remove_dataset(name)
             return alg, None
+        if case["variant"] == "DecoupledGP" and case["model"] == "real-notrain":
+            import vopy.models.gpytorch as MG
+
+            saved = MG.GPyTorchModelListExactModel.train
+            MG.GPyTorchModelListExactModel.train = lambda self: None
+            try:
+                alg = algos.build("DecoupledGP", dataset_name=name, order=order, noise_var=case["noise_var"],
+                                  cost_budget=case["budget"], costs=list(case["costs"]), batch_size=case["batch"])
+            finally:
+                MG.GPyTorchModelListExactModel.train = saved
+            stubs.remove_dataset(name)
+            return alg, None
         if case["variant"] == "DecoupledGP":
             stub = runstubs.StubGP(case["X"], case["mu"], rng, shape="rect", mode="random", scale_hint=case["scale"], decoupled=True)
             alg = algos.build("DecoupledGP", dataset_name=name, order=order, noise_var=case["noise_var"], stub=stub,
@@ -212,6 +224,18 @@ def build_algorithm(case, order):
                                    interior=interior, pareto_mask=pm)
             alg = algos.build(info["algo"], dataset_name=name, order=order, epsilon=case["eps"], delta=case["delta"],
                               noise_var=case["noise_var"], conf_contraction=case["contraction"], stub=stub, **kw)
+        elif case["model"] == "real-notrain":
+            # the real GP wrapper classes with their default hyper-parameters: hyper-parameter fitting is skipped
+            import vopy.models.gpytorch as MG
+
+            saved = (MG.GPyTorchMultioutputExactModel.train, MG.GPyTorchModelListExactModel.train)
+            MG.GPyTorchMultioutputExactModel.train = lambda self: None
+            MG.GPyTorchModelListExactModel.train = lambda self: None
+            try:
+                alg = algos.build(info["algo"], dataset_name=name, order=order, epsilon=case["eps"], delta=case["delta"],
+                                  noise_var=case["noise_var"], conf_contraction=case["contraction"], **kw)
+            finally:
+                MG.GPyTorchMultioutputExactModel.train, MG.GPyTorchModelListExactModel.train = saved
         else:
             alg = algos.build(info["algo"], dataset_name=name, order=order, epsilon=case["eps"], delta=case["delta"],
                               noise_var=case["noise_var"], conf_contraction=case["contraction"], **kw)
